@@ -38,16 +38,16 @@ package dns
 //@   ensures[F:errclass] err != nil ==> msg == nil
 //@   ensures[S:counts] err == nil ==> len(msg.Question) <= 65535 && len(msg.Answer) <= 65535 && len(msg.Authority) <= 65535 && len(msg.Additional) <= 65535
 //@   loop 1 "n < int(qdCount)"
-//@     invariant inRaw(s, d.raw) && 0 <= n && len(msg.Question) == n
+//@     invariant inRaw(s, d.raw) && 0 <= n && n <= int(qdCount) && len(msg.Question) == n
 //@     decreases int(qdCount) - n
 //@   loop 2 "n < int(anCount)"
-//@     invariant inRaw(s, d.raw) && 0 <= n && len(msg.Answer) == n && forall(i, 0, len(msg.Answer), typedRR(msg.Answer[i]))
+//@     invariant inRaw(s, d.raw) && 0 <= n && n <= int(anCount) && len(msg.Answer) == n && forall(i, 0, len(msg.Answer), typedRR(msg.Answer[i]))
 //@     decreases int(anCount) - n
 //@   loop 3 "n < int(nsCount)"
-//@     invariant inRaw(s, d.raw) && 0 <= n && len(msg.Authority) == n && forall(i, 0, len(msg.Authority), typedRR(msg.Authority[i]))
+//@     invariant inRaw(s, d.raw) && 0 <= n && n <= int(nsCount) && len(msg.Authority) == n && forall(i, 0, len(msg.Authority), typedRR(msg.Authority[i]))
 //@     decreases int(nsCount) - n
 //@   loop 4 "n < int(arCount)"
-//@     invariant inRaw(s, d.raw) && 0 <= n && len(msg.Additional) == n && forall(i, 0, len(msg.Additional), typedRR(msg.Additional[i]))
+//@     invariant inRaw(s, d.raw) && 0 <= n && n <= int(arCount) && len(msg.Additional) == n && forall(i, 0, len(msg.Additional), typedRR(msg.Additional[i]))
 //@     decreases int(arCount) - n
 
 //@ func decoder.name returns (n, err)
@@ -77,6 +77,8 @@ package dns
 //@   terminates
 //@   ensures[S:cursor] inRaw(*s, d.raw)
 //@   ensures[F:typed] err == nil ==> typedRR(rr)
+//@   loop 1 "!data.Empty()"
+//@     invariant[cursor] *s == entry(*s)
 
 //@ func decoder.mx returns (result, err)
 //@   requires s != nil && inRaw(*s, d.raw)
@@ -116,4 +118,13 @@ package dns
 //@ func decoder.uri returns (result, err)
 //@   terminates
 //@ func decoder.caa returns (result, err)
+//@   terminates
+
+//@ func DoH returns (m, err)
+//@   requires msg != nil
+//@   modifies rpos, closed
+//@   allocates Message, retryablehttp.Request, http.Request, retryablehttp.Client, http.Response
+//@   ensures[F:typed] err == nil ==> m != nil && typedMsg(m)
+
+//@ func Message.ResponseCode returns (rc)
 //@   terminates
